@@ -528,3 +528,247 @@ def replay_cases(pid, oracle, path, reset=None):
         return 1
     print(f"[{pid}] replay: the recorded cases satisfy the oracle on the current tree")
     return 0
+
+
+# ---- closed world: the real virtual-time schedulers vs Ops/TimedSim.v ----------------------------
+# The closed-world theorems are about [simulate]: every timer fires exactly at its due time, source
+# notifications first at equal instants, then timers in scheduling order.  Here the SAME operators run
+# under the library's own virtual-time schedulers -- TestScheduler (numeric clock, 1 tick = 1 s) and
+# HistoricalScheduler (datetime clock, instants in ms) -- driven by hot sources whose notifications were
+# scheduled before the subscription, and the recorded (time, notification) list is compared by Coq with
+# [timed_emits (simulate_fuel machine 600 t0 events)].
+
+CW_IMPORTS = "Base.Prelude Base.CaseLib Ops.Machine Ops.Multi Ops.MultiCase Ops.Timed Ops.TimedSim"
+
+
+def cw_table():
+    from reactivex import operators as ops
+    T = {}
+
+    def rel_abs(rng, choices_rel=DUR, choices_abs=(-5, 0, 5, 10, 20), p_rel=0.7):
+        rel = rng.random() < p_rel
+        return rel, (rng.choice(choices_rel) if rel else rng.choice(list(choices_abs)))
+
+    def timearg(rng, U, rel, v, t0):
+        """v in ticks; absolute values are offsets from the subscription instant t0"""
+        if rel:
+            return U["rel"](rng, v)
+        return U["abs"](t0 + v)
+
+    def simple(name, mk, coq, durs=DUR, gaps=True, bounds=False, zz=None, from_end=False):
+        def g(rng, U, t0):
+            d = rng.choice(durs)
+            t = U["rel"](rng, d)
+            return dict(op=lambda srcs: srcs[0].pipe(mk(t)), coq=coq(d, t0), nsrc=1, d=d,
+                        gaps=[d] if gaps else [], bounds=[d] if bounds else [], from_end=[d] if from_end else [],
+                        **(zz or ZT))
+        T[name] = g
+
+    def g_delay(rng, U, t0):
+        rel, v = rel_abs(rng)
+        t = timearg(rng, U, rel, v, t0)
+        return dict(op=lambda srcs: srcs[0].pipe(ops.delay(t)), coq=f"x_delay_at {g_tspec(rel, v if rel else t0 + v)} {gz(t0)}",
+                    nsrc=1, gaps=[max(v, 0)], bounds=[], **ZT)
+    T["delay"] = g_delay
+
+    def g_dsub(rng, U, t0):
+        rel, v = rel_abs(rng)
+        t = timearg(rng, U, rel, v, t0)
+        return dict(op=lambda srcs: srcs[0].pipe(ops.delay_subscription(t)),
+                    coq=f"x_delay_subscription {g_tspec(rel, v if rel else t0 + v)} {gz(t0)}", nsrc=1, gaps=[],
+                    bounds=[max(v, 0)], **ZT)
+    T["delay_subscription"] = g_dsub
+
+    T["timestamp"] = lambda rng, U, t0: dict(op=lambda srcs: srcs[0].pipe(ops.timestamp()), coq="x_timestamp", nsrc=1,
+                                              gaps=[], bounds=[], **dict(ZZ, enc="stamp"))
+    T["time_interval"] = lambda rng, U, t0: dict(op=lambda srcs: srcs[0].pipe(ops.time_interval()),
+                                                  coq=f"x_time_interval {gz(t0)}", nsrc=1, gaps=[], bounds=[],
+                                                  **dict(ZZ, enc="interval"))
+    simple("debounce", ops.debounce, lambda d, t0: f"x_debounce {gz(d)}")
+    simple("throttle_first", ops.throttle_first, lambda d, t0: f"x_throttle_first {gz(d)}", durs=[5, 10, 10, 20])
+    simple("take_with_time", ops.take_with_time, lambda d, t0: f"x_take_until_with_time (Rel {gz(d)}) {gz(t0)}",
+           gaps=False, bounds=True)
+    simple("skip_with_time", ops.skip_with_time, lambda d, t0: f"x_skip_until_with_time true (Rel {gz(d)}) {gz(t0)}",
+           gaps=False, bounds=True)
+    simple("take_last_with_time", ops.take_last_with_time, lambda d, t0: f"x_take_last_with_time {gz(d)}",
+           from_end=True)
+    simple("skip_last_with_time", ops.skip_last_with_time, lambda d, t0: f"x_skip_last_with_time {gz(d)}",
+           from_end=True)
+
+    def g_until(take):
+        def g(rng, U, t0):
+            rel, v = rel_abs(rng, p_rel=0.5)
+            t = timearg(rng, U, rel, v, t0)
+            op = ops.take_until_with_time if take else ops.skip_until_with_time
+            ts = g_tspec(rel, v if rel else t0 + v)
+            coq = f"x_take_until_with_time {ts} {gz(t0)}" if take else f"x_skip_until_with_time false {ts} {gz(t0)}"
+            return dict(op=lambda srcs: srcs[0].pipe(op(t)), coq=coq, nsrc=1, gaps=[], bounds=[max(v, 0)], **ZT)
+        return g
+    T["take_until_with_time"] = g_until(True)
+    T["skip_until_with_time"] = g_until(False)
+
+    def g_sample_time(rng, U, t0):
+        p = rng.choice([5, 10, 10, 20])
+        t = U["rel"](rng, p)
+        return dict(op=lambda srcs: srcs[0].pipe(ops.sample(t)), coq=f"x_sample_time {gz(p)}", nsrc=1, gaps=[p],
+                    bounds=[p, 2 * p], must_terminate=True, **ZT)
+    T["sample_time"] = g_sample_time
+
+    T["sample_observable"] = lambda rng, U, t0: dict(op=lambda srcs: srcs[0].pipe(ops.sample(srcs[1])),
+                                                      coq="x_sample_observable", nsrc=2, gaps=[], bounds=[], **ZT)
+
+    def g_timeout(rng, U, t0):
+        rel, v = rel_abs(rng, choices_rel=[0, 5, 10, 10, 20], choices_abs=(-5, 0, 5, 10, 20, 30))
+        t = timearg(rng, U, rel, v, t0)
+        other = rng.random() < 0.5
+        ts = g_tspec(rel, v if rel else t0 + v)
+        return dict(op=(lambda srcs: srcs[0].pipe(ops.timeout(t, srcs[1]))) if other
+                    else (lambda srcs: srcs[0].pipe(ops.timeout(t))),
+                    coq=f"x_timeout {ts} {'true' if other else 'false'} {gz(t0)}", nsrc=2 if other else 1,
+                    gaps=[v] if rel else [], bounds=[] if rel else [max(v, 0)], **ZT)
+    T["timeout"] = g_timeout
+    return T
+
+
+def _units():
+    import datetime as dt
+    from reactivex.internal.constants import UTC_ZERO
+    S = {"rel": lambda rng, d: float(d) if rng.random() < 0.6 else dt.timedelta(seconds=d),
+         "abs": lambda due: UTC_ZERO + dt.timedelta(seconds=due),
+         "stamp": lambda ts: int(round((ts - UTC_ZERO).total_seconds())),
+         "span": lambda td: int(round(td.total_seconds()))}
+    MS = {"rel": lambda rng, d: d / 1000.0 if rng.random() < 0.6 else dt.timedelta(milliseconds=d),
+          "abs": lambda due: UTC_ZERO + dt.timedelta(milliseconds=due),
+          "stamp": lambda ts: ms(ts - UTC_ZERO), "span": ms}
+    return S, MS
+
+
+def run_real_scheduler(kind, inst, evs, t0):
+    """-> [(time, kind, payload)] recorded under the library's own virtual-time scheduler"""
+    import datetime as dt
+    from reactivex.subject import Subject
+    from reactivex.internal.constants import UTC_ZERO
+    if kind == "test":
+        from reactivex.testing import TestScheduler
+        sch = TestScheduler()
+        at = lambda t: float(t)
+        clock = lambda: int(round(sch.clock))
+    else:
+        from reactivex.scheduler import HistoricalScheduler
+        sch = HistoricalScheduler(UTC_ZERO)
+        at = lambda t: UTC_ZERO + dt.timedelta(milliseconds=t)
+        clock = lambda: ms(sch.clock - UTC_ZERO)
+    class Hot:
+        """hand-made hot source: forwards to whoever is subscribed now; no replay of a past terminal
+        (a Subject would replay it to a late subscriber)"""
+        def __init__(self):
+            import reactivex
+            from reactivex.disposable import Disposable
+            self.obs = []
+
+            def subscribe(observer, scheduler=None):
+                rec = [observer]
+                self.obs.append(rec)
+                return Disposable(lambda: rec in self.obs and self.obs.remove(rec))
+            self.observable = reactivex.Observable(subscribe)
+
+        def pipe(self, *a):
+            return self.observable.pipe(*a)
+
+        def _each(self, f):
+            for rec in list(self.obs):
+                if rec in self.obs:
+                    f(rec[0])
+
+        def on_next(self, v):
+            self._each(lambda o: o.on_next(v))
+
+        def on_error(self, e):
+            self._each(lambda o: o.on_error(e))
+
+        def on_completed(self):
+            self._each(lambda o: o.on_completed())
+    subjects = [Hot() for _ in range(inst["nsrc"])]
+    out = []
+
+    def feed(k, ev):
+        def action(s, st=None):
+            if ev[0] == "N":
+                subjects[k].on_next(ev[1])
+            elif ev[0] == "E":
+                subjects[k].on_error(ev[1])
+            else:
+                subjects[k].on_completed()
+        return action
+    for (t, k, ev) in evs:                       # the source's notifications are in the queue first
+        sch.schedule_absolute(at(t), feed(k, ev))
+
+    def subscribe(s, st=None):
+        inst["op"](subjects).subscribe(lambda v: out.append((clock(), "N", v)),
+                                       lambda e: out.append((clock(), "E", e)),
+                                       lambda: out.append((clock(), "C", None)), scheduler=sch)
+    sch.schedule_absolute(at(t0), subscribe)
+    sch.start()
+    return out
+
+
+def closed_world(chk, pid, names, ncase=None):
+    import lib
+    import random
+    T = cw_table()
+    S, MS = _units()
+    ncase = ncase or (12 if chk.tier == "quick" else 300)
+    cases = {}
+    n = 0
+    for name in names:
+        if name not in T:
+            continue
+        for ci in range(ncase):
+            for kind, U in (("test", S), ("historical", MS)):
+                r = random.Random(chk.rng.getrandbits(48))
+                t0 = r.choice([0, 200])
+                inst = T[name](r, U, t0)
+                evs = [(t0 + t, k, ev) for (t, k, ev) in
+                       gen_timeline(r, inst["nsrc"], inst.get("bounds", ()), inst.get("gaps", ()),
+                                    inst.get("from_end", ()), nonconforming=0.0,
+                                    p_none=0.0 if inst.get("must_terminate") else 0.12)]
+                evs = [e for e in evs if e[0] > t0] if True else evs   # sent before the subscription: nobody listens
+                # subjects do not forward anything after their terminal: keep conforming sequences
+                out = run_real_scheduler(kind, inst, evs, t0)
+                n += 1
+                enc = inst["enc"]
+                if enc == "stamp":
+                    encv = lambda v: f"({enc_val(v.value)}, {gz(U['stamp'](v.timestamp))})"
+                elif enc == "interval":
+                    encv = lambda v: f"({enc_val(v.value)}, {gz(U['span'](v.interval))})"
+                else:
+                    encv = enc_val
+
+                def g_ev(kd, payload):
+                    if kd == "N":
+                        return f"Next {encv(payload)}"
+                    if kd == "E":
+                        from k2 import err_id
+                        return f"Err {gz(err_id(payload))}"
+                    return "Done"
+                g_out = "[" + "; ".join(f"({gz(t)}, {g_ev(kd, p)})" for (t, kd, p) in out) + "]"
+                g_in = k2m.g_inputs([(t, ("src", k, ev)) for (t, k, ev) in evs], enc_val)
+                key = (inst["ty"], inst["eqb"])
+                cases.setdefault(key, []).append((f"({inst['coq']}, {gz(t0)}, {g_in})", g_out, name, kind))
+    chk.cov["closed_world_runs_real_schedulers"] = n
+    for (ty, eqb), cs in cases.items():
+        prelude = (f"Definition cw (c : machine Z {ty} * Z * list (Z * inp Z)) := "
+                   f"timed_emits (snd (fst c)) (simulate_fuel (fst (fst c)) 600 (snd (fst c)) (snd c)).\n")
+        bad, logs = lib.correspondence(pid, "cw_" + str(abs(hash((ty, eqb))) % 10**6), CW_IMPORTS,
+                                       f"(machine Z {ty} * Z * list (Z * inp Z)) * list (Z * ev {ty})",
+                                       "cw", f"(list_eqb (pair_eqb Z.eqb (ev_eqb {eqb})))",
+                                       [(a, b) for (a, b, _, _) in cs], prelude=prelude)
+        chk.cov["traces_validated_against_impl"] += len(cs)
+        chk.cov["disagreements_checked"] += len(cs)
+        if bad:
+            firsts = [cs[i] for i in bad if i >= 0][:3]
+            d = {"n": len(bad), "first (machine, t0, events | recorded by the real scheduler | operator | scheduler)": firsts,
+                 "logs": logs[:1]}
+            if firsts:
+                d["simulator_says"] = lib.coq_show(pid, CW_IMPORTS, f"cw {firsts[0][0]}", prelude)
+            chk.tie_broken(f"closed world ({ty}): Ops/TimedSim.v vs TestScheduler/HistoricalScheduler", d)
